@@ -12,6 +12,8 @@ A(a_id, i, s, b, prev_id) B(b_id, n, t, a_id, a2_id) L(l_id, w, a_id, b_id); R1 
 Not checked (the property text does not clearly demand it; see the notes of the items): which instance `select any`
 returns and the order of `for each` are taken from C09/C02 (creation order / relate order); phrases on non-reflexive
 associations; `/` and `%` live in their own item (clauses integer-division, modulo-negative: DESIGN section 6, K3).
+Item association-class-hops: selections whose chains cross the association class of R4 (directly and in the two-hop form) on
+populations where a participant has 0, 1, 2 and 3 link instances (given initially, or made by the program with relate .. using ..).
 Item if-elif-ladders: ladders with 2-3 elif clauses under every truth assignment of their guards (exactly the first clause whose
 guard holds runs, else only when none holds), each clause with an observable body.
 The model also holds callable elements with observable invocations (_c04_gen.HELPERS); C04's programs never invoke them (C08 does).
@@ -225,7 +227,7 @@ def control_flow(ctx):
 # ------------------------------------------------------------------------------------------------- if / elif / else ladders
 @item('if-elif-ladders', stands_in_for=[STANDS[0], 'bridgepoint.interpret.ActionWalker.accept_IfNode', 'bridgepoint.interpret.ActionWalker.accept_ElIfListNode',
                                         'bridgepoint.interpret.ActionWalker.accept_ElIfNode', 'bridgepoint.interpret.ActionWalker.accept_ElseNode'],
-      shards=2, weight=1,
+      shards=1, weight=1,
       bound='if / elif / else ladders with 2 and 3 elif clauses, with and without else: every truth assignment of the 3-4 guards (48 shapes) x '
             '6 body styles (every clause leaves its own mark m=m*10+clause, plus: attribute write, create, create+relate over R1/R4, assignment '
             'that makes all later guards hold, break/continue/return/control stop) x 6 contexts (top level, inside while, inside for each, in '
@@ -247,11 +249,38 @@ def if_elif_ladders(ctx):
     ctx.exhausted = True
 
 
+# ------------------------------------------------------------------------------------------------- hops over the association class
+@item('association-class-hops', stands_in_for=[STANDS[0], 'bridgepoint.interpret.ActionWalker.accept_SelectRelatedNode',
+                                               'bridgepoint.interpret.ActionWalker.accept_SelectRelatedWhereNode',
+                                               'bridgepoint.interpret.ActionWalker.accept_RelateUsingNode', 'xtuml.meta.MetaClass.navigate'],
+      shards=1, weight=1,
+      bound='select one / any / many .. related by <start><chain> [where ..] for every chain of 1-2 (thorough: 1-3) navigation steps that crosses '
+            'R4 (A many-to-many B with association class L): the hop to the other participant directly (a->B[R4], b->A[R4]), the explicit '
+            'two-hop form over L, hops before and behind it over R1 / R2 / R3 (42 chains; thorough 190); starts: the instances of A with 0, 1, 2 and 3 '
+            'link instances, the instances of B with 3, 2, 1 and 0, a link instance, the sets of all A / all B / all L / some A; no where clause and '
+            '2 where clauses per class that the partner related first does not satisfy; population links (an eighth of the programs - thorough: all - '
+            'also on links-rev: partners and link instances created in reverse order); plus programs that build the links themselves with '
+            'relate .. to .. across R4 using .. in both argument orders (one participant in 0..3 link instances, another one in 0..2) and then select '
+            'from the participants and from the sets; observed: cardinality and attribute sum of the selection / attribute of the selected '
+            'instance, returned and stored; exhaustive (3027 programs quick / 19740 thorough)')
+def association_class_hops(ctx):
+    if ctx.shard == 0:
+        ctx.note(NOTE)
+    for n, (desc, tree, pop) in enumerate(G.assoc_hop_programs(ctx.quick)):
+        if n % ctx.nshards != ctx.shard:
+            continue
+        if ctx.expired():
+            ctx.exhausted = False
+            return
+        run_case(ctx, tree, pop, 'association-class-hops')
+    ctx.exhausted = True
+
+
 # ------------------------------------------------------------------------------------------------- sampled programs
 @item('programs-sampled', stands_in_for=STANDS, shards=3, weight=3,
       bound='random type-correct programs: random prelude + up to 3 statements / expression depth 2 (quick) or up to 6 statements / '
             'expression depth 3 (thorough), arbitrary nesting of if/elif/else, while, for each, where clauses, chains up to 2 (quick) / 3 steps; '
-            'each on the populations rich, sparse, empty and one random population (0-3 A, 0-3 B, 0-2 L, random links within the multiplicities); '
+            'each on the populations rich, sparse, empty and one random population (0-3 A, 0-3 B, 0-4 L, random links within the multiplicities: participants of R4 with several link instances); '
             'sampled until 80% of the time budget')
 def programs_sampled(ctx):
     if ctx.shard == 0:
